@@ -66,7 +66,14 @@ def dependency_table(ci: ClassInfo, recompute: FuncInfo) -> Dict[str, Set[str]]:
     for g in transitive_self_callees(ci, recompute):
         me = self_name(g)
         for a, val, st in _assigns(g, me):
-            direct.setdefault(a, set()).update(fields_read(val, me) - {a})
+            reads = set(fields_read(val, me))
+            for (callee, _c) in self_calls_in(val, me):
+                if callee in ci.methods:
+                    for h in transitive_self_callees(ci, ci.methods[callee]):
+                        hm = self_name(h)
+                        if hm:
+                            reads |= fields_read(h.node, hm)
+            direct.setdefault(a, set()).update(reads - {a})
     # transitive closure
     changed = True
     while changed:
@@ -126,23 +133,67 @@ class _RefreshFlow(Flow):
             return s
         return self._apply(st, s)
 
-    def branch(self, test, s):
-        # a guard that reads only base fields (definedness / span tests) does not split the obligation:
-        # the false edge is a state where the derived values are undefined anyway
-        reads = fields_read(test, self.me)
-        t = self._apply(test, s)
-        if reads and reads <= self.bases:
-            return t, None if False else ("base-guard", t)
-        return t, t
+    def _base_locals(self) -> Set[str]:
+        """locals computed only from base fields, parameters, constants and other such locals"""
+        if hasattr(self, "_bl"):
+            return self._bl
+        bl: Set[str] = set()
+        params = {a.arg for a in self.f.params}
+        for _ in range(3):
+            for n in body_nodes(self.f):
+                if isinstance(n, ast.Assign) and len(n.targets) == 1 and isinstance(n.targets[0], ast.Name):
+                    ok = True
+                    for x in ast.walk(n.value):
+                        a = self_attr(x, self.me)
+                        if a is not None and a not in self.bases:
+                            ok = False
+                        if isinstance(x, ast.Name) and x.id != self.me and x.id not in params and x.id not in bl and isinstance(x.ctx, ast.Load) \
+                                and x.id not in ("abs", "isinstance", "float", "int", "min", "max", "len"):
+                            ok = False
+                    if ok:
+                        bl.add(n.targets[0].id)
+        self._bl = bl
+        return bl
+
+    def _is_base_guard(self, test: ast.AST) -> bool:
+        refs = 0
+        bl = self._base_locals()
+        for x in ast.walk(test):
+            a = self_attr(x, self.me)
+            if a is not None:
+                if a not in self.bases:
+                    return False
+                refs += 1
+            elif isinstance(x, ast.Name) and isinstance(x.ctx, ast.Load) and x.id != self.me:
+                if x.id in bl:
+                    refs += 1
+        return refs > 0
+
+    def _touches_derived(self, stmts) -> bool:
+        for st in stmts:
+            for n in ast.walk(st):
+                if isinstance(n, ast.Call) and isinstance(n.func, ast.Attribute) and isinstance(n.func.value, ast.Name) and n.func.value.id == self.me:
+                    return True
+                if isinstance(n, ast.Attribute) and isinstance(n.ctx, ast.Store) and self_attr(n, self.me) is not None and self_attr(n, self.me) not in self.bases:
+                    return True
+        return False
 
     def stmt(self, st, s):
-        if isinstance(st, ast.If):
-            reads = fields_read(st.test, self.me)
-            if reads and reads <= self.bases and not st.orelse:
-                # only the true edge carries the obligation (false edge: base values not usable)
-                t = self._apply(st.test, s)
+        if isinstance(st, ast.If) and self._is_base_guard(st.test):
+            # a guard on base values only (definedness / span tests): the edge on which nothing derived is computed is the
+            # "base values not usable" edge and carries no obligation
+            t = self._apply(st.test, s)
+            body_d, else_d = self._touches_derived(st.body), self._touches_derived(st.orelse)
+            bails = lambda blk: bool(blk) and isinstance(blk[-1], (ast.Return, ast.Raise)) and not self._touches_derived(blk)
+            if bails(st.body):
+                return self.block(st.orelse, t) if st.orelse else t          # bail-out exit exempt
+            if bails(st.orelse):
+                return self.block(st.body, t)
+            if body_d and not else_d:
                 out = self.block(st.body, t)
-                return out if out is not None else None
+                return out
+            if else_d and not body_d:
+                return self.block(st.orelse, t)
         return super().stmt(st, s)
 
     def on_exit(self, kind, node, s):
@@ -229,62 +280,134 @@ def linear_form(e: ast.AST, me: str) -> Optional[Dict[str, float]]:
     return None
 
 
+def bound_groups(ci: ClassInfo):
+    """Groups of bound assignments: one per helper method, or one per branch when a helper selects the
+    direction with `if <param> is/== <constant>: ... else: ...`.
+    -> list of dicts {func, selector: None | (param, 'eq'|'ne', const text), asg: {field: expr}}"""
+    fmin, fmax = getter_field(ci, "t_min"), getter_field(ci, "t_max")
+    out = []
+    for nm, f in ci.methods.items():
+        me = self_name(f)
+        if me is None:
+            continue
+        all_asg = {a: v for a, v, _ in _assigns(f, me)}
+        if not (fmin in all_asg and fmax in all_asg):
+            continue
+        params = set(f.pos_params[1:]) | set(f.kwonly_params)
+        split = None
+        for st in f.node.body:
+            if isinstance(st, ast.If) and isinstance(st.test, ast.Compare) and len(st.test.ops) == 1 and isinstance(st.test.ops[0], (ast.Is, ast.Eq)) \
+                    and isinstance(st.test.left, ast.Name) and st.test.left.id in params and st.orelse:
+                def blk_asg(blk):
+                    d = {}
+                    for s2 in blk:
+                        for n in ast.walk(s2):
+                            if isinstance(n, ast.Assign):
+                                for t in n.targets:
+                                    a = self_attr(t, me)
+                                    if a is not None:
+                                        d[a] = n.value
+                    return d
+                a1, a2 = blk_asg(st.body), blk_asg(st.orelse)
+                if fmin in a1 and fmin in a2:
+                    split = (st.test.left.id, ast.unparse(st.test.comparators[0]), a1, a2, st)
+        if split is not None:
+            pn, const, a1, a2, st = split
+            common = {k: v for k, v in all_asg.items() if k not in a1 and k not in a2}
+            out.append({"func": f, "selector": (pn, "eq", const), "asg": {**common, **a1}, "line": st.lineno})
+            out.append({"func": f, "selector": (pn, "ne", const), "asg": {**common, **a2}, "line": st.orelse[0].lineno})
+        else:
+            out.append({"func": f, "selector": None, "asg": all_asg, "line": f.node.lineno})
+    return out
+
+
 def check_shift_direction(ctx: CheckContext, r: Resolver, ci: ClassInfo, rule: str = "DERIVED-DIR"):
-    """In the helper that takes (t_min, t_max) = (target, supply) [hot] the shifted bounds are bound - dt_cont;
-    in the helper that takes (supply, target) [cold] they are bound + dt_cont; each star bound from its own bound."""
-    ctx.rule(rule, "hot helper: t_min=target, t_max=supply, star = bound - contribution; cold helper mirrored with +; "
-                   "linear forms are compared, not text")
+    """In the code that takes (t_min, t_max) = (target, supply) [hot] the shifted bounds are bound - dt_cont;
+    in the code that takes (supply, target) [cold] they are bound + dt_cont; each star bound from its own bound."""
+    ctx.rule(rule, "hot bounds: t_min=target, t_max=supply, star = bound - contribution; cold bounds mirrored with +; "
+                   "linear forms are compared, not text; one helper per kind or one helper branching on a direction parameter")
     fmin, fmax = getter_field(ci, "t_min"), getter_field(ci, "t_max")
     smin, smax = getter_field(ci, "t_min_star"), getter_field(ci, "t_max_star")
     sup, tar, dtc = getter_field(ci, "t_supply"), getter_field(ci, "t_target"), getter_field(ci, "dt_cont")
     if None in (fmin, fmax, smin, smax, sup, tar, dtc):
         raise AnalysisError(f"{ci.name}: temperature bound properties not found")
-    helpers = {}
-    for nm, f in ci.methods.items():
+    groups = []
+    for g in bound_groups(ci):
+        f, asg = g["func"], g["asg"]
         me = self_name(f)
-        if me is None:
+        tag = f"{f.qualname}" + (f"[{g['selector'][0]} {g['selector'][1]} {g['selector'][2]}]" if g["selector"] else "")
+        if not (smin in asg and smax in asg):
             continue
-        asg = {a: v for a, v, _ in _assigns(f, me)}
-        if fmin in asg and fmax in asg and smin in asg and smax in asg:
-            lmin, lmax = linear_form(asg[fmin], me), linear_form(asg[fmax], me)
-            kind = None
-            if lmin == {tar: 1.0} and lmax == {sup: 1.0}:
-                kind = "hot"
-            elif lmin == {sup: 1.0} and lmax == {tar: 1.0}:
-                kind = "cold"
-            if kind is None:
-                ctx.ob(rule, f"{f.qualname}:bounds", f.loc, False,
-                       f"{ci.name}.{nm} sets t_min/t_max from neither (target, supply) nor (supply, target)")
-                continue
-            helpers[kind] = f
-            sign = -1.0 if kind == "hot" else 1.0
-            for star, bound in ((smin, fmin), (smax, fmax)):
-                lf = linear_form(asg[star], me)
-                if lf is None:
-                    raise AnalysisError(f"{f.loc}: shifted bound is not a linear form: {ast.unparse(asg[star])}")
-                # allow the bound to be referred to through its source field
-                src = {fmin: (tar if kind == "hot" else sup), fmax: (sup if kind == "hot" else tar)}[bound]
-                ok = lf in ({bound: 1.0, dtc: sign}, {src: 1.0, dtc: sign})
-                ctx.ob(rule, f"{f.qualname}:{star}", f"{f.module.relpath}:{f.node.lineno}", ok,
-                       "" if ok else f"{kind} stream: {star} = {ast.unparse(asg[star])} is not {bound} {'-' if sign < 0 else '+'} {dtc}")
-            # type tag agrees with the kind
-            for n in body_nodes(f):
-                if isinstance(n, ast.Assign) and any(self_attr(t, me) == "_type" for t in n.targets):
-                    txt = ast.unparse(n.value)
-                    ok = ("Hot" in txt) == (kind == "hot") and ("Cold" in txt) == (kind == "cold")
-                    ctx.ob(rule, f"{f.qualname}:_type", f"{f.module.relpath}:{n.lineno}", ok,
-                           "" if ok else f"{kind} helper tags the stream as {txt}")
-    if set(helpers) != {"hot", "cold"}:
-        raise AnalysisError(f"{ci.name}: hot/cold bound helpers not both found (found {sorted(helpers)})")
-    return helpers
+        lmin, lmax = linear_form(asg[fmin], me), linear_form(asg[fmax], me)
+        kind = None
+        if lmin == {tar: 1.0} and lmax == {sup: 1.0}:
+            kind = "hot"
+        elif lmin == {sup: 1.0} and lmax == {tar: 1.0}:
+            kind = "cold"
+        if kind is None:
+            ctx.ob(rule, f"{tag}:bounds", f"{f.module.relpath}:{g['line']}", False,
+                   f"{ci.name}.{f.name} sets t_min/t_max from neither (target, supply) nor (supply, target)")
+            continue
+        g["kind"] = kind
+        groups.append(g)
+        sign = -1.0 if kind == "hot" else 1.0
+        for star, bound in ((smin, fmin), (smax, fmax)):
+            lf = linear_form(asg[star], me)
+            if lf is None:
+                raise AnalysisError(f"{f.loc}: shifted bound is not a linear form: {ast.unparse(asg[star])}")
+            src = {fmin: (tar if kind == "hot" else sup), fmax: (sup if kind == "hot" else tar)}[bound]
+            ok = lf in ({bound: 1.0, dtc: sign}, {src: 1.0, dtc: sign})
+            ctx.ob(rule, f"{tag}:{star}", f"{f.module.relpath}:{g['line']}", ok,
+                   "" if ok else f"{kind} stream: {star} = {ast.unparse(asg[star])} is not {bound} {'-' if sign < 0 else '+'} {dtc}")
+        # type tag agrees with the kind (a tag derived from the direction parameter is checked at the call sites)
+        if "_type" in asg:
+            txt = ast.unparse(asg["_type"])
+            sel = g["selector"]
+            if sel is not None and sel[0] in txt:
+                pass
+            else:
+                ok = ("Hot" in txt) == (kind == "hot") and ("Cold" in txt) == (kind == "cold")
+                ctx.ob(rule, f"{tag}:_type", f"{f.module.relpath}:{g['line']}", ok, "" if ok else f"{kind} bounds tag the stream as {txt}")
+    kinds = {g["kind"] for g in groups}
+    if kinds != {"hot", "cold"}:
+        raise AnalysisError(f"{ci.name}: hot/cold bound code not both found (found {sorted(kinds)})")
+    return groups
 
 
 class _OrderFlow(Flow):
     """Tracks the known order between supply and target along paths: '>' (supply>target), '<', '=' or None."""
 
-    def __init__(self, f, me, sup, tar, helpers, ctx, rule, ci):
-        self.f, self.me, self.sup, self.tar, self.helpers, self.ctx, self.rule, self.ci = f, me, sup, tar, helpers, ctx, rule, ci
+    def __init__(self, f, me, sup, tar, groups, ctx, rule, ci):
+        self.f, self.me, self.sup, self.tar, self.groups, self.ctx, self.rule, self.ci = f, me, sup, tar, groups, ctx, rule, ci
         self.sites = {}
+
+    def _group_for(self, callee: str, call: ast.Call):
+        cands = [g for g in self.groups if g["func"].name == callee]
+        if not cands:
+            return None
+        if cands[0]["selector"] is None:
+            return cands[0]
+        pn, _, const = cands[0]["selector"]
+        f = cands[0]["func"]
+        pos = f.pos_params[1:]
+        arg = None
+        if pn in pos and pos.index(pn) < len(call.args):
+            arg = call.args[pos.index(pn)]
+        for k in call.keywords:
+            if k.arg == pn:
+                arg = k.value
+        if arg is None:
+            return "unknown"
+        txt = ast.unparse(arg)
+        if not isinstance(arg, (ast.Attribute, ast.Constant)):
+            return "unknown"
+        for g in cands:
+            if (g["selector"][1] == "eq") == (txt == const):
+                # a tag derived from the direction must name the group's kind
+                g = dict(g)
+                g["arg_text"] = txt
+                return g
+        return "unknown"
 
     def copy(self, s):
         return s
@@ -329,14 +452,26 @@ class _OrderFlow(Flow):
             return s
         # helper calls: obligation on the current order fact
         for (callee, call) in self_calls_in(st, self.me):
-            for kind, h in self.helpers.items():
-                if callee == h.name:
-                    need = ">" if kind == "hot" else "<"
-                    ok = (s == need)
-                    self.ctx.ob(self.rule, f"{self.f.qualname}:{norm_stmt(call)}#{len(self.sites)}", f"{self.f.module.relpath}:{call.lineno}", ok,
-                                "" if ok else f"{self.ci.name}.{self.f.name} calls the {kind} bound helper on a path where "
-                                              f"supply {need} target is not established (known: supply {s} target)")
-                    self.sites[id(call)] = ok
+            g = self._group_for(callee, call)
+            if g is None:
+                continue
+            if g == "unknown":
+                self.ctx.ob(self.rule, f"{self.f.qualname}:{norm_stmt(call)}#{len(self.sites)}", f"{self.f.module.relpath}:{call.lineno}", False,
+                            f"{self.ci.name}.{self.f.name} selects the bound direction with a non-constant argument: the hot/cold choice cannot be tied to the supply/target order")
+                self.sites[id(call)] = False
+                continue
+            kind = g["kind"]
+            need = ">" if kind == "hot" else "<"
+            ok = (s == need)
+            msg = "" if ok else (f"{self.ci.name}.{self.f.name} computes the {kind} bounds on a path where supply {need} target is not established "
+                                 f"(known: supply {s} target)")
+            if ok and "arg_text" in g:
+                want = "Hot" if kind == "hot" else "Cold"
+                other = "Cold" if kind == "hot" else "Hot"
+                if other in g["arg_text"] and want not in g["arg_text"]:
+                    ok, msg = False, f"{self.ci.name}.{self.f.name} passes {g['arg_text']} where the selected branch computes the {kind} bounds"
+            self.ctx.ob(self.rule, f"{self.f.qualname}:{norm_stmt(call)}#{len(self.sites)}", f"{self.f.module.relpath}:{call.lineno}", ok, msg)
+            self.sites[id(call)] = ok
         if isinstance(st, ast.Assign) and len(st.targets) == 1:
             a = self_attr(st.targets[0], self.me)
             if a in (self.sup, self.tar):
@@ -352,18 +487,19 @@ class _OrderFlow(Flow):
         return s
 
 
-def check_helper_guards(ctx: CheckContext, r: Resolver, ci: ClassInfo, helpers: Dict[str, FuncInfo], rule: str = "DERIVED-ORDER"):
-    ctx.rule(rule, "the hot bound helper is only called where supply > target is established by a dominating test or assignment, "
-                   "the cold helper only where supply < target (so that t_min <= t_max after every recomputation)")
+def check_helper_guards(ctx: CheckContext, r: Resolver, ci: ClassInfo, groups, rule: str = "DERIVED-ORDER"):
+    ctx.rule(rule, "the hot bounds are only computed where supply > target is established by a dominating test or assignment, "
+                   "the cold bounds only where supply < target (so that t_min <= t_max after every recomputation)")
     sup, tar = getter_field(ci, "t_supply"), getter_field(ci, "t_target")
+    names = {g["func"].name for g in groups}
     n = 0
     for nm, f in list(ci.methods.items()) + list(ci.setters.items()):
         me = self_name(f)
         if me is None:
             continue
-        if not any(callee in {h.name for h in helpers.values()} for (callee, _) in self_calls_in(f.node, me)):
+        if not any(callee in names for (callee, _) in self_calls_in(f.node, me)):
             continue
-        fl = _OrderFlow(f, me, sup, tar, helpers, ctx, rule, ci)
+        fl = _OrderFlow(f, me, sup, tar, groups, ctx, rule, ci)
         fl.run(f.node, '?')
         n += len(fl.sites)
     return n
